@@ -107,6 +107,23 @@ def real_kf(e):
     return ("ok", None), at
 
 
+def ref_keys(e, coords):
+    """The statement of C15 for index expressions, written directly: argument a, axis n carrying index s reads block 0 when the
+    argument has a single block there (broadcast / contracted), else the output coordinate at the last position of s."""
+    out = list(e["out"])
+    keys = []
+    for name, ind in e["args"]:
+        nb = e["numblocks"][name]
+        cs = []
+        for s_, n in zip(ind, nb):
+            if n == 1 or s_ not in out:
+                cs.append(0)
+            else:
+                cs.append(coords[len(out) - 1 - out[::-1].index(s_)])
+        keys.append((name, cs))
+    return keys
+
+
 def coq_expr_terms(e):
     args = "[" + "; ".join(f"({n}, {cnatlist(ind)})" for n, ind in e["args"]) + "]"
     nbs = "[" + "; ".join(f"({n}, {cnatlist(nb)})" for n, nb in e["numblocks"].items()) + "]"
@@ -154,6 +171,12 @@ def k1(ctx, n):
             if r[0] == "err" and r[1] in (3, 7, 8):
                 ctx.fail("blockwise/malformed-keys",
                          f"key function built without error but returns malformed keys at {coords}", {**desc, "coords": coords})
+            if r[0] == "ok":
+                want = ref_keys(e, coords)
+                if want != r[1]:
+                    ctx.fail("blockwise/keys-not-designated-by-index-expression",
+                             f"output block {coords}: key function returns {r[1]} but the index expression designates {want}",
+                             {**desc, "coords": coords})
             parts.append(f"res_keys_eqb (f {cnatlist(coords)}) {keys_term(r)}")
             # the declarative reference (what blockwise_kf_spec proves) agrees as well
             parts.append(f"res_keys_eqb (f {cnatlist(coords)}) (Ok (ref_kf {out} {args} {nbs} {cnatlist(coords)}))")
@@ -310,6 +333,22 @@ def build_real(t):
     return fuse_multiple(op, *preds)
 
 
+def py_run_unfused(t, key):
+    """Provenance when every fused predecessor is run as its own (real, unfused) blockwise spec."""
+    from cubed.primitive.blockwise import map_nested
+
+    fused = {f"n{c['out']}": c for c in t["fused"]}
+
+    def read(k):
+        if k.name in fused:
+            return ["B", py_run_unfused(fused[k.name], k)]
+        return ["B", [6, int(k.name[1:]), len(k.coords)] + list(k.coords)]
+
+    fa = py_keyfun(t["desc"])(key)
+    vals = map_nested(read, fa)
+    return py_fun(t["out"])(*vals.args)[1]
+
+
 def to_ktree(x):
     from cubed.primitive.blockwise import ChunkKey, FunctionArgs
 
@@ -358,6 +397,11 @@ def k2(ctx, n):
             parts.append(f"fargs_eqb (fused_keys {tt} ({t['out']}, {cnatlist(coords)})) ({outn}, {kt})")
             parts.append(f"natlist_eqb (fused_result {tt} ({t['out']}, {cnatlist(coords)})) {cnatlist(res[1])}")
             parts.append(f"natlist_eqb (run_tree {tt} ({t['out']}, {cnatlist(coords)})) {cnatlist(res[1])}")
+            unf = py_run_unfused(t, key)
+            if unf != res[1]:
+                ctx.fail("fusion-changes-what-functions-receive",
+                         f"output block {coords}: fused execution gives provenance {res[1][:40]}... but running the predecessors as separate operations gives {unf[:40]}...",
+                         {"tree": t, "coords": coords})
         desc = {"tree": t}
         if dd > 1:
             ctx.nt(desc)
